@@ -313,6 +313,29 @@ def check_1d(chk, drv, sp, rng, nrand):
                              'model': float(Fr(mo['ys'][k]))} if (k == 3 and der == 1) else None)
         chk.count('1-D %s deg=%d %s %s' % ('cubic-uniform' if sp.cu else 'general', sp.deg,
                                              'periodic' if sp.periodic else 'clamped', sp.kind), len(xs))
+    # the same Spline1D object after its coefficients were overwritten IN PLACE (what every compute_interpolant does): values and
+    # derivatives are those of the new coefficients (nothing derived from the old ones may be kept)
+    c2 = sp.wrap(np.array([rng.uniform(-2, 2) for _ in range(sp.ncoef)]))
+    s.coeffs[:] = c2
+    for der in (1, 0):
+        case0 = dict(base, der=der, coeffs_hex=hxs(c2), note='coefficients overwritten in place after earlier evaluations')
+        M = sp.ref_matrix(xs, der)
+        ref = M @ c2
+        osc = sp.oscale(float(np.max(np.abs(c2))), der)
+        got_s = guarded(chk, 'Spline1D.eval(scalar)', case0, lambda: [s.eval(float(x), der) for x in xs])
+        got_a = guarded(chk, 'Spline1D.eval(array)', case0, lambda: s.eval(xs.copy(), der))
+        outv = np.full(len(xs), np.nan)
+        okv = guarded(chk, 'Spline1D.eval_vector', case0, lambda: (s.eval_vector(xs.copy(), outv, der), True)[1])
+        for entry, vals in (('Spline1D.eval(scalar)', got_s), ('Spline1D.eval(array)', got_a), ('Spline1D.eval_vector', outv if okv else None)):
+            if vals is None:
+                continue
+            for k, x in enumerate(xs):
+                if der and sp.deg == 1 and not sp.discont_ok(x):
+                    continue
+                cmp_oracle(chk, 'C07:' + entry, entry + ' after the coefficients were overwritten in place differs from the B-spline of the NEW coefficients',
+                           dict(case0, entry=entry, x=float(x), x_hex=hx(x)), float(vals[k]), ref[k], osc)
+    chk.count('1-D re-evaluation after in-place change of the coefficients')
+    s.coeffs[:] = c
     # periodic: equal values (p >= 1) and slopes (p >= 2) at both ends of the period
     if sp.periodic:
         for der in ((0, 1) if sp.deg >= 2 else (0,)):
